@@ -82,10 +82,12 @@ def req_part(ctx, h, quick, ext=False):
             sess = markers.Session(h)
             rm = reqmodel.ReqModel(sess.p, keys, wd=None); rm_wd = reqmodel.ReqModel(sess.p, keys, wd=wd)
 
-    for n, text in enumerate(inputs):
+    from .. import reqgen
+    fixed = [(t, w) for t in reqgen.NEAR_GRAMMAR for w in (0, 1, 2)]
+    for n, item in enumerate(fixed + inputs):
+        text, which = item if isinstance(item, tuple) else (item, n % 3)
         ctx.evaluations += 1
         n_req += 1
-        which = n % 3
         if which == 0:
             r, io, m = reqmodel.compare_req(ctx, sess, rm, text, True, None)
             entry = 'Requirement::<VerbatimUrl>::from_str'
@@ -129,9 +131,10 @@ def req_part(ctx, h, quick, ext=False):
             ctx.failure('PackageName / ExtraName construction panicked on %r' % text, {'entry': 'PackageName::new', 'input': text})
             alive(text, 'PackageName::new')
     if ext:
-        for n, text in enumerate(token_inputs(ctx, UPREFIXES, RTOKENS, 2, {2: 0.08 if quick else 0.6})):
+        ufixed = [(t, w) for t in reqgen.NEAR_GRAMMAR_UNNAMED for w in (True, False)]
+        for n, item in enumerate(ufixed + token_inputs(ctx, UPREFIXES, RTOKENS, 2, {2: 0.08 if quick else 0.6})):
+            text, use_wd = item if isinstance(item, tuple) else (item, n % 2 == 0)
             ctx.evaluations += 1
-            use_wd = n % 2 == 0
             r = sess.ask(['unnamed', S(wd) if use_wd else 'none', S(text)])
             io = reqmodel.outcome(r)
             entry = 'UnnamedRequirement::parse' if use_wd else 'UnnamedRequirement::from_str'
